@@ -198,6 +198,43 @@ def run(rep, tier="quick", replay=None, evidence_dir=None):
         se = calls_named(sr, "serde::Serialize::serialize")
         rep.ob("C18.R4", "write_ref writes the header before serializing the datum", len(wa) == 1 and len(se) == 1 and sr.dominates(wa[0][0], se[0][0]), "", sr.loc())
 
+    # ---------- R5: the default header is the fingerprint of the schema the writer / reader actually uses ----------
+    rep.rule("C18.R5", "a default header is computed from the same schema object that the reader / writer resolves and encodes with")
+    RESOLVERS = ("schema::resolve::ResolvedOwnedSchema::new", "schema::resolve::ResolvedSchema::<'s>::new", "std::convert::TryFrom::try_from",
+                 "writer::single_object::GenericSingleObjectWriter::new_with_capacity_and_header_builder", "reader::single_object::GenericSingleObjectReader::new_with_header_builder")
+    n5 = 0
+    for b in prog.by_crate["apache_avro"]:
+        for bi, t in calls_named(b, "headers::RabinFingerprintHeader::from_schema"):
+            n5 += 1
+            a = t["args"][0]
+            owner = b.path if b.kind != "Closure" else b.parent
+            cr = b.call_result_of(a)
+            ok = False
+            why = "header schema = %s" % b.opdesc(a)
+            if cr and callee_names(cr[1]["func"])[0].endswith("::get_root_schema"):
+                ok = True   # root schema of the resolved schema the object holds
+            else:
+                ra = b.resolve_operand(a) if a.get("k") in ("copy", "move") else None
+                # same root local handed to the function that builds the resolved schema / stores the schema
+                fam = prog.with_closures(prog.bodies.get(owner, b)) if b.kind == "Closure" else prog.with_closures(b)
+                for ob in [b]:
+                    for cbi, ct in ob.calls():
+                        nm = callee_names(ct["func"])
+                        if not nm or not any(n in RESOLVERS for n in nm):
+                            continue
+                        for x in ct["args"]:
+                            if x.get("k") in ("copy", "move"):
+                                rx = ob.resolve_operand(x)
+                                if ra and rx and rx[0] == ra[0]:
+                                    ok = True
+                if not ok and b.kind == "Closure" and ra is not None and ra[0] == 1:
+                    # a captured variable of a builder closure: it must be the builder's own schema member
+                    ok = b.opdesc(a) in ("schema", "self.schema")
+                    why = "header schema is the captured `%s`" % b.opdesc(a)
+            rep.ob("C18.R5", "%s: default header comes from the schema in use" % owner, ok,
+                   why + ": a header built from another schema object (e.g. a freshly derived one) carries a fingerprint that readers of the real schema reject", b.loc(bi))
+    rep.floor("C18.R5", "default-header sites", n5, 4)
+
     rep.floor("C18", "obligations", len(rep.obligations), 18)
     rep.not_decided = ["fingerprint values and bit-level header mismatch for concrete messages", "round trip of values through both readers (needs execution)"]
     return common.finish(rep, level="other",
